@@ -43,6 +43,17 @@ pub fn passes(tier: &str) -> Vec<Pass> {
     v
 }
 
+pub fn bodies(tier: &str) -> Vec<crate::e3::BodySpec> {
+    use crate::props::c06::{Act, Finals, Kind, VisBody};
+    use std::sync::Arc;
+    let q = tier == "quick";
+    vec![crate::e3::BodySpec {
+        body: Arc::new(VisBody { name: "ingest(a,b) || insert a || reader: point reads agree with scans", kind: Kind::Plain, workers: 0, keyspaces: vec!["x"], initial: vec![("x", "ab", "0")], prerotate: vec![], threads: vec![vec![Act::Ingest("x", vec![("a", "ingested"), ("b", "ingested")])], vec![Act::Ins(("x", "a", "written"))]], finals: Finals::PointVsScan }),
+        bound: 2,
+        secs: if q { 5.0 } else { 120.0 },
+    }]
+}
+
 pub fn run(tier: &str) -> i32 {
     let t0 = Instant::now();
     let mut o = Outcome::new("C01", tier, "model_checking");
@@ -61,11 +72,21 @@ pub fn run(tier: &str) -> i32 {
     if wit.blob_files == 0 {
         o.machinery_errors.push("reachability witness missing: no state with blob files".into());
     }
+    crate::e3::fold_e3(&mut o, "C01", tier, &bodies(tier), "e3_");
     o.wall_s = t0.elapsed().as_secs_f64();
     finish(o)
 }
 
 pub fn replay(v: &serde_json::Value) -> i32 {
+    if v["engine"] == "E3-schedcheck" {
+        let tier = v["variant"]["tier"].as_str().unwrap_or("quick");
+        let bi = v["variant"]["body_index"].as_u64().unwrap_or(0) as usize;
+        let choices: Vec<usize> = v["variant"]["choices"].as_array().map(|a| a.iter().filter_map(|c| c.as_u64().map(|c| c as usize)).collect()).unwrap_or_default();
+        return match bodies(tier).get(bi) {
+            Some(b) => crate::e3::replay_schedule(&*b.body, &choices),
+            None => 2,
+        };
+    }
     let name = v["variant"]["pass"].as_str().unwrap_or("");
     let plen = v["variant"]["prefix_len"].as_u64().unwrap_or(0) as usize;
     let program: Vec<String> = v["program"].as_array().map(|a| a.iter().filter_map(|s| s.as_str().map(String::from)).collect()).unwrap_or_default();
